@@ -588,6 +588,8 @@ class Limit(Parameter):
         if self.hasDatatype():
             return  # the programmer is responsible that a given datatype is correct
         postfix = self.name.rpartition('_')[-1]
+        # a copy: properties configured for the limit must not change the base parameter
+        datatype = datatype.copy()
         if postfix == 'limits':
             self.datatype = LimitsType(datatype)  # refuses min > max
             self.default = (datatype.min, datatype.max)
